@@ -12,6 +12,7 @@ import (
 	"errors"
 	"fmt"
 	"hash/crc32"
+	"math"
 	"strings"
 
 	"github.com/gopacket/gopacket"
@@ -1347,7 +1348,12 @@ var errRadioTapTruncated = errors.New("RadioTap field extends beyond data")
 func (m *RadioTap) LayerType() gopacket.LayerType { return LayerTypeRadioTap }
 
 func (m *RadioTap) DecodeFromBytes(data []byte, df gopacket.DecodeFeedback) error {
-	dataLen := uint16(len(data))
+	// The header length field has 16 bits: header fields are looked for in the first 65535 bytes only, which
+	// also keeps the 16-bit offsets used below from wrapping around.
+	dataLen := uint16(math.MaxUint16)
+	if len(data) < math.MaxUint16 {
+		dataLen = uint16(len(data))
+	}
 	if dataLen < 8 {
 		df.SetTruncated()
 		return errors.New("RadioTap too small")
@@ -1368,7 +1374,7 @@ func (m *RadioTap) DecodeFromBytes(data []byte, df gopacket.DecodeFeedback) erro
 		// and expects all fields are packed in the first it_present.
 		// Extended bitmap will be just ignored.
 		offset += 4
-		if offset+4 > dataLen {
+		if int(offset)+4 > int(dataLen) {
 			df.SetTruncated()
 			return errors.New("RadioTap present bitmap extends beyond data")
 		}
@@ -1382,7 +1388,7 @@ func (m *RadioTap) DecodeFromBytes(data []byte, df gopacket.DecodeFeedback) erro
 	vendorNamespace := false
 	for _, present := range m.Present {
 		if radioTapNamespace {
-			rValues, newOffset, err := RadioTapNamespace{}.decodeRadioTapNamespace(data, offset, present)
+			rValues, newOffset, err := RadioTapNamespace{}.decodeRadioTapNamespace(data[:dataLen], offset, present)
 			if err != nil {
 				df.SetTruncated()
 				return err
@@ -1390,7 +1396,7 @@ func (m *RadioTap) DecodeFromBytes(data []byte, df gopacket.DecodeFeedback) erro
 			m.RadioTapValues = append(m.RadioTapValues, rValues)
 			offset = newOffset
 		} else if vendorNamespace {
-			vValues, newOffset, err := VendorNamespace{}.decodeVendorNamespace(data, offset, present)
+			vValues, newOffset, err := VendorNamespace{}.decodeVendorNamespace(data[:dataLen], offset, present)
 			if err != nil {
 				df.SetTruncated()
 				return err
@@ -1415,7 +1421,7 @@ func (m *RadioTap) DecodeFromBytes(data []byte, df gopacket.DecodeFeedback) erro
 	payload := data[m.Length:]
 
 	// Remove non standard padding used by some Wi-Fi drivers
-	if m.RadioTapValues[0].Flags.Datapad() &&
+	if m.RadioTapValues[0].Flags.Datapad() && len(payload) >= 2 &&
 		payload[0]&0xC == 0x8 { //&& // Data frame
 		headlen := 24
 		if payload[0]&0x8C == 0x88 { // QoS
@@ -1424,7 +1430,7 @@ func (m *RadioTap) DecodeFromBytes(data []byte, df gopacket.DecodeFeedback) erro
 		if payload[1]&0x3 == 0x3 { // 4 addresses
 			headlen += 2
 		}
-		if headlen%4 == 2 {
+		if headlen%4 == 2 && len(payload) >= headlen+2 {
 			payload = append(payload[:headlen], payload[headlen+2:len(payload)]...)
 		}
 	}
